@@ -522,6 +522,9 @@ class Manager:
         event.channels = channels
 
         event.value = Value(event, self)
+        # (an event object that is fired again: what its previous dispatch
+        # ended with does not decide this one)
+        event._failed = False
         self.root._fire(event, channels, **kwargs)
 
         return event.value
